@@ -100,6 +100,13 @@ CLAIMED["C12"] = dict(
         "loss, duplication, reordering, delay, small receive queues, EAGAIN/ENOBUFS on send; histories of Join/JoinOn/JoinSource/Leave/LeaveSource/BlockSource/UnblockSource/SetLoop/SetTTL/SetAll/SetOutboundIPv4/SetAsyncReadBuffer interleaved with traffic and pending reads, each option call failed once by injection. "
         "Oracle: one read completion per datagram the kernel queued, with exactly its bytes, n=min(len), the sender's IP and port; one emitted datagram per write with exactly the caller's bytes and destination (observed in the kernel); the datagrams the kernel queued for each socket equal what an abstract membership model (joined, not left, source admitted, not blocked, IP_MULTICAST_ALL) predicts; a re-designated read buffer receives the datagram; after every call each getter equals the kernel's option/name.",
    note="The delivery rule of the stub follows net/ipv4/igmp.c (ip_mc_sf_allow, ip_check_mc) for the generated histories: one membership per group per socket, membership changes only while no datagram is in flight, source operations on the default device. Unicast is not sent to a port several sockets share. Open known finding: Loop() getter.")
+CLAIMED["C13"] = dict(
+   category="fault_enumeration",
+   technique="deterministic simulation with enumerated fault injection: every k-th kernel call of every kind of each constructor is failed; descriptor census by generation; GC injected at chosen instants",
+   text="Fault enumeration over 12 constructors (NewIO, NewTimer, Dial tcp/udp, Listen, accept sync+async, NewPacketConn, NewUDPPeer, Open, websocket Handshake and AsyncHandshake, NewMirroredBuffer on the real kernel): the successful build is measured and every k-th call of every kind it makes is failed once (EMFILE at the k-th allocation for every k, realistic errnos otherwise), "
+        "plus refused/unreachable/time-out/bind conflict/non-local bind/bad, truncated or wrong-key handshake response/server close or reset mid-handshake. The stub kernel's exact census (number:kind:generation) must be what it was before after a failure, and after Close of a success. "
+        "Seeded exploration on top: repeated Close (and Cancel-after-Close, conn-close-after-adapter-close) on every object kind interleaved with creation of other objects so that numbers are reused - any close of a generation the object does not own is flagged; and GC at tape-chosen instants with reads and/or writes deferred after the program dropped every reference (weak pointer to a sentinel captured only by the callbacks), including between the completion of one direction and the other, with the completion required afterwards.",
+   note="Fault points are enumerated over the kernel calls the stub sees, not over Go allocations. Open known finding: Dial panics for descriptor numbers >= 1024 (select).")
 
 NOT_YET = {
 }
